@@ -30,7 +30,7 @@ def run_program(rec, hub, seed_rng, steps, letters="abcd", ill_rate=0.3, props=(
     fd = hub.fd
     rng = seed_rng
     pat = gen.LENGTH_PATTERNS[len(letters)][int(rng.integers(0, len(gen.LENGTH_PATTERNS[len(letters)])))] if len(letters) in gen.LENGTH_PATTERNS else (2,) * len(letters)
-    U = gen.universe(fd, dict(zip(letters, pat)))
+    U = gen.universe(fd, dict(zip(letters, pat)), rng=rng)
     tdim = fd.Dimension(letter="t", name="time", items=[2000, 2001, 2002, 2003], dtype=int)
     pool = Pool()
     log = []
@@ -45,6 +45,8 @@ def run_program(rec, hub, seed_rng, steps, letters="abcd", ill_rate=0.3, props=(
 
     for _ in range(3):
         pool.add(new_array(), fd)
+    live = {"ds": gen.dimset(fd, U, rand_letters())}
+    keep_fill = []
 
     def pick():
         return pool.arrays[int(rng.integers(0, len(pool.arrays)))]
@@ -58,8 +60,25 @@ def run_program(rec, hub, seed_rng, steps, letters="abcd", ill_rate=0.3, props=(
         """returns (description, in-place target or None, results to add)"""
         ill = rng.random() < ill_rate
         x = pick()
-        kind = rng.choice(["ctor", "binop", "reduce", "read", "write", "setvals", "df", "stack", "apply", "stock", "copy", "classm"])
+        kind = rng.choice(["ctor", "binop", "reduce", "read", "write", "setvals", "df", "stack", "apply", "stock", "copy", "classm", "dimset"])
         ls = tuple(x.dims.letters)
+        if kind == "dimset":
+            # a dimension set kept by the user: looked at, edited in place, and used to declare arrays in between
+            ds = live["ds"]
+            present = list(ds.letters)
+            absent = [l for l in letters if l not in present]
+            _ = (ds.shape, ds.total_size, str(ds), ds.ndim)
+            c = int(rng.integers(0, 5))
+            if c == 0 and absent:
+                ds.expand_by([U[l] for l in absent[: int(rng.integers(1, len(absent) + 1))]], inplace=True)
+            elif c == 1 and absent:
+                ds.append(U[absent[0]], inplace=True) if rng.random() < 0.5 else ds.insert(int(rng.integers(0, len(present) + 1)), U[absent[0]], inplace=True)
+            elif c == 2 and present:
+                ds.drop(present[int(rng.integers(0, len(present)))], inplace=True)
+            elif c == 3 and present and absent:
+                ds.replace(present[0], U[absent[0]], inplace=True)
+            return (f"dimset edit {c} then declare", None, [lambda: fd.FlodymArray(dims=ds), lambda: fd.FlodymArray(dims=ds, values=np.ones(tuple(len(U[l].items) for l in ds.letters))),
+                                                        lambda: fd.FlodymArray.full(ds, 1.5)])
         if kind == "ctor":
             ls2 = rand_letters()
             shape = gen.shape_of(U, ls2)
@@ -73,6 +92,10 @@ def run_program(rec, hub, seed_rng, steps, letters="abcd", ill_rate=0.3, props=(
             if c == 0:
                 return (f"full {ls2}", None, [lambda: fd.FlodymArray.full(ds, 2.5)])
             if c == 1:
+                if rng.random() < 0.5:
+                    fill = gen.values_one("dyadic", rng, x.dims.shape)  # a fill array of exactly the template's shape
+                    keep_fill.append(fill)
+                    return ("full_like array fill", None, [lambda: fd.FlodymArray.full_like(x, fill)])
                 return ("full_like", None, [lambda: fd.FlodymArray.full_like(x, 1.0)])
             if c == 2:
                 return ("scalar", None, [lambda: fd.FlodymArray.scalar(3.0)])
